@@ -66,6 +66,7 @@ class Fn:
         self.ret = None
         self.outs = {}     # scalar out-pointer parameters: name -> (w, signed)
         self.mode = None   # None: the function's return value; a name: the final value of that out parameter
+        self.locals = set()
         self.pending = []  # (lean variable, type, term): locals written through `&x` by the call just translated
         self.uninit = {}   # locals declared without initialiser: their indeterminate value is an extra parameter `u_x`
 
@@ -95,12 +96,18 @@ class Fn:
             if rk == "EnumConstantDecl":
                 ti = tinfo(ctype(n))
                 return lit(self.tr.enum_value(name), ti[0]), ti, []
+            if rk == "VarDecl" and name not in self.locals and not any(p == self.var(name) for p, _ in self.params):
+                ti = tinfo(ctype(n))
+                return lit(self.tr.global_const(name), ti[0]), ti, []
             return self.var(name), tinfo(ctype(n)), []
         if k == "ImplicitCastExpr" or k == "CStyleCastExpr":
             ck = n["castKind"]
             inner = n["inner"][0]
             if ck in ("LValueToRValue", "NoOp", "FunctionToPointerDecay", "ArrayToPointerDecay"):
                 return self.expr(inner)
+            if ck == "ToVoid":
+                t, ti, c = self.expr(inner)
+                return "()", None, c
             if ck in ("IntegralCast", "IntegralToBoolean", "BooleanToSignedIntegral"):
                 t, ti, c = self.expr(inner)
                 to = tinfo(ctype(n))
@@ -126,6 +133,11 @@ class Fn:
             if op == "+":
                 return t, to, c
             raise Unsupported(f"unary {op}")
+        if k == "BinaryOperator" and n["opcode"] == ",":
+            # comma: the left operand only contributes its definedness conditions (assert expansions)
+            a, ta, ca = self.expr(n["inner"][0])
+            b, tb, cb = self.expr(n["inner"][1])
+            return b, tb, ca + cb
         if k == "BinaryOperator":
             op = n["opcode"]
             a, ta, ca = self.expr(n["inner"][0])
@@ -138,12 +150,17 @@ class Fn:
             b, tb, cb = self.expr(n["inner"][2])
             cond = f"({c0} != {lit(0, tc[0])})"
             conds = cc + [f"(if {cond} then {conj(ca)} else {conj(cb)})"] if (ca or cb) else cc
+            if ta is None or tb is None:
+                return "()", None, conds      # void conditional (assert expansion)
             return f"(if {cond} then {a} else {b})", tinfo(ctype(n)), conds
         if k == "CallExpr":
             callee = n["inner"][0]
             while callee["kind"] in ("ImplicitCastExpr", "ParenExpr"):
                 callee = callee["inner"][0]
             fname = callee["referencedDecl"]["name"]
+            if fname in ("__assert_fail", "abort"):
+                # a failing assertion (NEVER / ALWAYS / assert): not a value, the path is "undefined"
+                return "()", None, ["false"]
             if fname != "__builtin_clzll":
                 self.tr.require(fname)
                 info = self.tr.fninfo.get(fname)
@@ -260,9 +277,13 @@ class Fn:
             x = a
             while x["kind"] in ("ParenExpr", "ImplicitCastExpr"):
                 x = x["inner"][0]
-            if x["kind"] != "UnaryOperator" or x.get("opcode") != "&":
+            if x["kind"] == "DeclRefExpr" and x["referencedDecl"]["name"] in self.outs:
+                # the caller's own out pointer handed on
+                nm, tl = "o_" + x["referencedDecl"]["name"], self.outs[x["referencedDecl"]["name"]]
+            elif x["kind"] != "UnaryOperator" or x.get("opcode") != "&":
                 raise Unsupported(f"out argument of {fname} that is not &variable")
-            nm, tl = self.lhs(x["inner"][0])
+            else:
+                nm, tl = self.lhs(x["inner"][0])
             if tl != pt:
                 raise Unsupported("out argument type")
             terms.append(nm)
@@ -362,17 +383,20 @@ class Fn:
                     raise Unsupported("void return in value mode")
                 return "o_" + self.mode, "true"
             t, ti, c = self.expr(s["inner"][0])
-            self.no_pending("a return expression")
+            pend = self.take_pending()
             t = self.cast(t, ti, self.ret)
             if self.mode is not None:
                 t = "o_" + self.mode
-            return t, conj(c)
+            pre = "".join(f"let t_{pn} : BitVec {pt[0]} := {ptm}\n" for pn, pt, ptm in pend)
+            post = "".join(f"let {pn} : BitVec {pt[0]} := t_{pn}\n" for pn, pt, ptm in pend)
+            return f"{pre}{post}{t}", conj(c)
         if k == "DeclStmt":
             out_v, out_d = None, None
             binds = []
             for d in s["inner"]:
                 if d["kind"] != "VarDecl":
                     raise Unsupported("decl " + d["kind"])
+                self.locals.add(d["name"])
                 if d.get("storageClass") == "static":
                     self.add_table(d)
                     continue
@@ -807,6 +831,17 @@ class Translator:
                 raise Unsupported(f"clang failed on {path}: {r.stderr[:500]}")
             self.full[path] = json.loads(r.stdout)
         return self.full[path]
+
+    def global_const(self, name):
+        """value of a file-scope `const` integer variable with a constant initialiser"""
+        for path in self.files:
+            tu = self.full_ast(path)
+            for d in tu.get("inner", []):
+                if d.get("kind") == "VarDecl" and d.get("name") == name and d.get("inner"):
+                    if not ctype(d).startswith("const "):
+                        raise Unsupported(f"file-scope variable {name} is not const")
+                    return const_eval(d["inner"][0])
+        raise Unsupported(f"file-scope constant {name} not found")
 
     def global_field_table(self, arr, field):
         """values of `field` over the initialiser of the file-scope const array of structs `arr`"""
